@@ -284,7 +284,8 @@ func (s *routeSel) isElem(v ssa.Value) bool {
 func (s *routeSel) matched(b *ssa.BasicBlock, elem ssa.Value) bool {
 	return hasFact(b, true, func(v ssa.Value) bool {
 		call, ok := v.(*ssa.Call)
-		return ok && call.Common().IsInvoke() && call.Common().Method.Name() == "match" && an.Strip(call.Common().Value) == an.Strip(elem) &&
+		// the same element: the same SSA value, or another load of the same routes[i] (nothing stores into the slice's elements)
+		return ok && call.Common().IsInvoke() && call.Common().Method.Name() == "match" && (an.Strip(call.Common().Value) == an.Strip(elem) || s.isElem(call.Common().Value) && an.Path(call.Common().Value) == an.Path(elem)) &&
 			len(call.Common().Args) == 1 && an.Strip(call.Common().Args[0]) == s.req
 	})
 }
@@ -824,10 +825,13 @@ func (c *Ctx) checkDispatch(m *serverModel) {
 		}
 		return isMuxServe(ci.Common()) && isCall(ci)
 	}
-	cnt := an.CountEvents(m.serve, an.After(m.readReq), isDisp, func(in ssa.Instruction) bool { return in.Block() == m.loopHead && an.PointOf(in).I == 0 })
+	isUnbind := c.isUnbindAtom()
+	// (the unbind branch is C10's: it dispatches nothing and ends the loop, by a return or through a flag)
+	cnt := an.CountEvents(m.serve, an.After(m.readReq), isDisp, func(in ssa.Instruction) bool {
+		return in.Block() == m.loopHead && an.PointOf(in).I == 0 || hasEqFact(in.Block(), true, isUnbind)
+	})
 	// at the loop head (next iteration)
 	first := m.loopHead.Instrs[0]
-	isUnbind := c.isUnbindAtom()
 	okNext := cnt[first] == an.C1
 	R.Check(okNext, "C03-dispatch", "(*conn).serveRequests: one dispatch per request read", c.pos(m.readReq), "between a successful readRequest and the next iteration exactly one of {go serve, inline serve} runs", "a request can be dispatched "+cnt[first].String()+" times before the next read: dropped or handled twice")
 	for _, ret := range an.Returns(m.serve) {
